@@ -22,9 +22,15 @@ type propDef struct {
 
 var props = map[string]*propDef{}
 
+// extraRules: further rules of a property that live outside its cNN.go (added in later rounds).
+var extraRules = map[string][]func(r *R){}
+
 func register(id string, patterns []string, run func(r *R)) {
 	props[id] = &propDef{id, patterns, func(r *R) {
 		run(r)
+		for _, f := range extraRules[id] {
+			f(r)
+		}
 		hygiene(r)
 	}}
 }
